@@ -338,6 +338,8 @@ impl<C: CrcCalculator> Encapsulator<C> {
             return Err(EncapError::ErrorProtocolType);
         }
 
+        // the label re-use state is restored if the packet cannot be built
+        let re_use_state = (self.last_label, self.re_current_consecutive);
         label = self.check_label_re_use(label);
         let label_len = label.len();
         let pdu_len = pdu.len();
@@ -365,12 +367,14 @@ impl<C: CrcCalculator> Encapsulator<C> {
             // check the buffer size
             // if it cannot write at least more than the header
             if buffer_len < min_header_len {
+                (self.last_label, self.re_current_consecutive) = re_use_state;
                 return Err(EncapError::ErrorSizeBuffer);
             }
 
             // check the metadata len
             // if the protocol cannot handle such large amounts of data
             if TOTAL_LEN_MAX < pdu_len + PROTOCOL_LEN + label_len {
+                (self.last_label, self.re_current_consecutive) = re_use_state;
                 return Err(EncapError::ErrorPduLength);
             }
 
@@ -648,6 +652,8 @@ impl<C: CrcCalculator> Encapsulator<C> {
             return Err(EncapError::ErrorInvalidLabel);
         }
 
+        // the label re-use state is restored if the packet cannot be built
+        let re_use_state = (self.last_label, self.re_current_consecutive);
         label = self.check_label_re_use(label);
         let label_len = label.len();
         let pdu_len = pdu.len();
@@ -676,12 +682,14 @@ impl<C: CrcCalculator> Encapsulator<C> {
             // check the buffer size
             // if it cannot write at least more than the header
             if buffer_len < min_header_len {
+                (self.last_label, self.re_current_consecutive) = re_use_state;
                 return Err(EncapError::ErrorSizeBuffer);
             }
 
             // check the metadata len
             // if the protocol cannot handle such large amounts of data
             if TOTAL_LEN_MAX < pdu_len + PROTOCOL_LEN + label_len {
+                (self.last_label, self.re_current_consecutive) = re_use_state;
                 return Err(EncapError::ErrorPduLength);
             }
 
